@@ -264,8 +264,10 @@ class WebSocket(object):
             return
         if self.is_closing:
             yield events.Closed(message.code, message.reason)
-            self.state.closing = False
+            # Set closed before clearing closing, so that a send on
+            # another thread never sees both flags cleared
             self.state.closed = True
+            self.state.closing = False
         else:
             yield events.Closing(message.code, message.reason)
             self.close(message.code, message.reason)
